@@ -101,8 +101,12 @@ CLAIMS['C20'] = dict(level='other', technique='sibling table agreement on syntax
     note='Narrow necessary conditions of a property that is otherwise not applicable to static analysis; stated as such.',
     ref='§5 / §11.7 C20')
 
+CLAIMS['C16'] = dict(level='other', technique='flow analysis on MIR: call-graph fixpoint for "may return ParentElementLocked" (variant built, or Result of such a callee propagated by ?), intersected with the (mutation, Err exit) pairs of the validate-before-mutate analysis',
+    text='Decides ONLY the exception clause of the property: an operation that fails with the documented parent-locked error has had no effect, i.e. in no public-reachable function does a CFG path lead from a mutation of model state to an exit that can carry ParentElementLocked. Serializability of concurrent interleavings (results and final state equal to some sequential order) is NOT decided: it quantifies over schedules and compares with sequential runs, and the only static route (two-phase / reduction analysis) rejects essentially every public operation of the present design.',
+    note='Narrow clause of a property that is otherwise not applicable; one defect found by it was repaired (SHORT-NAME edit), one is a known finding.',
+    ref='§5 / §11.8 C16')
+
 NA = {
-    'C16': 'serialisability quantifies over interleavings and compares with sequential runs; the only static route (two-phase/reduction analysis) rejects essentially every public operation of the present design, so it cannot separate code that holds the property from code that does not',
 }
 
 PENDING = {}
